@@ -249,6 +249,7 @@ struct Conn {
     // what the script delivered on this connection (for the oracles; independent of the model)
     int delivered = 0;
     bool firstIsHeader = false, sawVersionlessHeader = false, sawIqRequest = false;
+    QByteArray scramServerFirst;   // last SCRAM server-first message sent on this connection
 };
 
 class Server : public QTcpServer
@@ -484,6 +485,29 @@ struct World {
         return id;
     }
 
+    // SCRAM-SHA-1 server-final message ("v=<signature>", base64) for the exchange that ran on the current connection, or
+    // empty when no client-final message has been received (RFC 5802: ServerSignature = HMAC(ServerKey, AuthMessage))
+    QByteArray scramServerFinal()
+    {
+        auto k = conn();
+        if (!k || k->scramServerFirst.isEmpty()) return {};
+        const QString all = QString::fromUtf8(k->plain + k->secure);
+        static const QRegularExpression reFirst("(?:<auth [^>]*>|<initial-response>)([^<]*)<"), reFinal("<response[^>]*>([^<]*)</response>");
+        QString first, fin;
+        for (auto it = reFirst.globalMatch(all); it.hasNext();) first = it.next().captured(1);
+        for (auto it = reFinal.globalMatch(all); it.hasNext();) fin = it.next().captured(1);
+        if (first.isEmpty() || fin.isEmpty()) return {};
+        QByteArray clientFirst = QByteArray::fromBase64(first.toLatin1()), clientFinal = QByteArray::fromBase64(fin.toLatin1());
+        if (!clientFirst.startsWith("n,,")) return {};
+        int p = clientFinal.indexOf(",p=");
+        if (p < 0) return {};
+        const QByteArray authMessage = clientFirst.mid(3) + "," + k->scramServerFirst + "," + clientFinal.left(p);
+        const QByteArray salted = QPasswordDigestor::deriveKeyPbkdf2(QCryptographicHash::Sha1, PASSWORD.toUtf8(), QByteArray::fromBase64("c2FsdHNhbHQ="), 1, 20);
+        const QByteArray serverKey = QMessageAuthenticationCode::hash(QByteArrayLiteral("Server Key"), salted, QCryptographicHash::Sha1);
+        const QByteArray sig = QMessageAuthenticationCode::hash(authMessage, serverKey, QCryptographicHash::Sha1);
+        return ("v=" + sig.toBase64()).toBase64();
+    }
+
     std::string stateStr()
     {
         auto st = client->state();
@@ -576,7 +600,9 @@ struct Runner {
         } else if (op == "tlsfailure") {
             c.srvSend("<failure xmlns='urn:ietf:params:xml:ns:xmpp-tls'/>");
         } else if (op == "success") {
-            c.srvSend("<success xmlns='urn:ietf:params:xml:ns:xmpp-sasl'/>");
+            // success <proof>: 1 = with the SCRAM server signature as success data whenever a SCRAM exchange got that far
+            QByteArray v = t.value(1) == "1" ? c.scramServerFinal() : QByteArray();
+            c.srvSend("<success xmlns='urn:ietf:params:xml:ns:xmpp-sasl'>" + v + "</success>");
         } else if (op == "failure") {
             c.srvSend("<failure xmlns='urn:ietf:params:xml:ns:xmpp-sasl'><not-authorized/></failure>");
         } else if (op == "challenge" || op == "challenge2") {
@@ -586,18 +612,25 @@ struct Runner {
                 auto k = c.conn();
                 QString all = k ? QString::fromUtf8(k->plain + k->secure) : QString();
                 static const QRegularExpression re1("<auth [^>]*>([^<]*)</auth>"), re2("<initial-response>([^<]*)</initial-response>");
-                QString b64 = re1.match(all).captured(1);
-                if (b64.isEmpty()) b64 = re2.match(all).captured(1);
+                // the most recent authentication request on this connection
+                QString b64;
+                int at = -1;
+                for (auto it = re1.globalMatch(all); it.hasNext();) { auto m = it.next(); b64 = m.captured(1); at = m.capturedStart(); }
+                for (auto it = re2.globalMatch(all); it.hasNext();) { auto m = it.next(); if (m.capturedStart() > at) { b64 = m.captured(1); at = m.capturedStart(); } }
                 QByteArray first = QByteArray::fromBase64(b64.toLatin1());
                 int i = first.indexOf("r=");
                 QByteArray nonce = i >= 0 ? first.mid(i + 2) : QByteArray("x");
-                data = ("r=" + nonce + "srvnonce,s=c2FsdHNhbHQ=,i=1").toBase64();
+                QByteArray serverFirst = "r=" + nonce + "srvnonce,s=c2FsdHNhbHQ=,i=1";
+                if (k) k->scramServerFirst = serverFirst;
+                data = serverFirst.toBase64();
             }
             if (op == "challenge") c.srvSend("<challenge xmlns='urn:ietf:params:xml:ns:xmpp-sasl'>" + data + "</challenge>");
             else c.srvSend("<challenge xmlns='urn:xmpp:sasl:2'>" + data + "</challenge>");
         } else if (op == "success2") {
-            // success2 <bound:0|1|2(sm enabled, resume)|3(sm failed)> <resumed:0|1|2(failed)> <token:0|1>
-            QByteArray x = "<success xmlns='urn:xmpp:sasl:2'><authorization-identifier>" + (USER + "@" + DOMAIN + "/bound").toUtf8() + "</authorization-identifier>";
+            // success2 <bound:0|1|2(sm enabled, resume)|3(sm failed)> <resumed:0|1|2(failed)> <token:0|1> <proof:0|1>
+            QByteArray x = "<success xmlns='urn:xmpp:sasl:2'>";
+            if (QByteArray v = t.value(4) == "1" ? c.scramServerFinal() : QByteArray(); !v.isEmpty()) x += "<additional-data>" + v + "</additional-data>";
+            x += "<authorization-identifier>" + (USER + "@" + DOMAIN + "/bound").toUtf8() + "</authorization-identifier>";
             QString b = t.value(1), r = t.value(2), k = t.value(3);
             if (b == "1") x += "<bound xmlns='urn:xmpp:bind:0'/>";
             if (b == "2") x += "<bound xmlns='urn:xmpp:bind:0'><enabled xmlns='urn:xmpp:sm:3' id='smid1' resume='true'/></bound>";
@@ -859,13 +892,13 @@ struct Policy {
 
 struct Conforming {
     Policy p;
-    bool tlsDone = false, authed = false, needFeatures = false, done = false, resumableNow = false, bind2Now = false;
+    bool tlsDone = false, authed = false, needFeatures = false, done = false, resumableNow = false, bind2Now = false, resumedNow = false;
     int said = 0;
     bool redirected = false;
     // returns "" when the server has nothing more to say (negotiation finished from the server's point of view)
     std::string next(const std::string &lastKind, bool newStream)
     {
-        if (newStream) { needFeatures = true; return p.auth == 'l' ? "hdr 0 1" : "hdr 1 1"; }
+        if (newStream) { needFeatures = !(p.auth == 'l' && !authed); return p.auth == 'l' ? "hdr 0 1" : "hdr 1 1"; }
         if (needFeatures) {
             needFeatures = false;
             if (p.auth == 'l' && !authed) return "";   // the client asks for the fields by itself
@@ -883,7 +916,7 @@ struct Conforming {
         auto has = [&](const char *s) { return lastKind.find(s) != std::string::npos; };
         if (starts("StartTls")) { tlsDone = true; return "proceed 1"; }
         if (starts("SaslAuth:scram")) return "challenge 1";
-        if (starts("SaslAuth") || starts("SaslResponse")) { authed = true; return "success"; }
+        if (starts("SaslAuth") || starts("SaslResponse")) { authed = true; return "success 1"; }
         if (starts("Sasl2Auth")) {
             authed = true;
             int b = has("+bind2") ? (has("+sm") && p.sm ? (p.sm == 2 ? 2 : 3) : 1) : 0;
@@ -891,13 +924,13 @@ struct Conforming {
             if (r == 1) b = 0;   // a resumed stream is not bound again
             bind2Now = b != 0;
             if (b == 2) resumableNow = true;
-            if (r == 1) { resumableNow = true; done = true; }
+            if (r == 1) { resumableNow = true; resumedNow = true; done = true; }
             else needFeatures = true;
-            return "success2 " + std::to_string(b) + " " + std::to_string(r) + " 0";
+            return "success2 " + std::to_string(b) + " " + std::to_string(r) + " 0 1";
         }
         if (starts("Bind")) return "bindres ok";
         if (starts("SmEnable")) { resumableNow = p.sm == 2; return p.sm == 2 ? "smenabled 1" : "smenabled 0"; }
-        if (starts("SmResume")) { if (p.resumeOk) resumableNow = true; return p.resumeOk ? "smresumed" : "smfailed"; }
+        if (starts("SmResume")) { if (p.resumeOk) { resumableNow = true; resumedNow = true; } return p.resumeOk ? "smresumed" : "smfailed"; }
         if (starts("NonSaslQuery")) return "fields 1 1";
         if (starts("NonSaslAuth")) { authed = true; return "authres 1"; }
         return "";
@@ -938,7 +971,7 @@ static std::string lastRequest(World &w, size_t from)
 }
 
 // ---- C10: one connection attempt driven by a conforming server, cut after `cut` server elements (cut < 0: never)
-struct AttemptResult { bool reachedDone = false, connectedSeen = false, cutDone = false; int said = 0; };
+struct AttemptResult { bool reachedDone = false, connectedSeen = false, cutDone = false, resumedNow = false; int said = 0; };
 
 static AttemptResult runAttempt(Session &s, const Policy &p, int cut, bool sendIqWhenUp, bool &resumable)
 {
@@ -980,7 +1013,8 @@ static AttemptResult runAttempt(Session &s, const Policy &p, int cut, bool sendI
     res.said = srv.said;
     res.connectedSeen = w.connectedSignals > connectedBefore;
     if (res.reachedDone) {
-        resumable = srv.resumableNow;
+        if (res.connectedSeen) resumable = srv.resumableNow;   // describes the last session the client really established
+        res.resumedNow = srv.resumedNow;
         if (!(res.connectedSeen && w.client->isConnected() && w.client->state() == QXmppClient::ConnectedState))
             fail("C10:conforming-script-does-not-connect:" + p.name, s.replay());
         else oraclePass()++;
@@ -1026,11 +1060,10 @@ static void exploreC10(Runner &r, Rng &rng, bool thorough)
     for (Pair pr : { Pair { "legacy", -1, "sasl-bind", 0 }, Pair { "tls-redirect", -1, "sasl-bind", 0 }, Pair { "redirect-in-session", -1, "sasl-bind", 0 },
                      Pair { "sasl2-bind2-smr", 3, "sasl-bind-smr", 1 }, Pair { "sasl2-bind2-smr", 3, "sasl-bind-smr", 0 } }) {
         Session s(r, cfgs[size_t(pr.cfg)]);
-        bool resumable = false;
-        auto a1 = runAttempt(s, byName(pr.p1), pr.cut, true, resumable);
-        cutAndCheck(s, a1.reachedDone ? resumable : false);
-        bool r2 = false;
-        runAttempt(s, byName(pr.p2), -1, false, r2);
+        bool resumable = false;   // does the client hold a resumable stream (from the scripts' point of view); survives failed attempts
+        runAttempt(s, byName(pr.p1), pr.cut, true, resumable);
+        cutAndCheck(s, resumable);
+        runAttempt(s, byName(pr.p2), -1, false, resumable);
         sample(s.replay());
         stat("c10:runs");
     }
@@ -1043,11 +1076,9 @@ static void exploreC10(Runner &r, Rng &rng, bool thorough)
                 bool resumable = false;
                 auto a1 = runAttempt(s, p, cut, true, resumable);
                 bool lastCut = a1.reachedDone;   // the script was shorter than the cut: this is the cut of an established session
-                cutAndCheck(s, a1.reachedDone ? resumable : false);
-                bool r2 = false;
-                auto a2 = runAttempt(s, p, -1, false, r2);
-                (void)a2;
-                if (p.auth != 'l' && !r2 && (s.r.w.iqStarted - s.r.w.iqFinished) != 0 && a2.reachedDone) fail("C10:request-outlives-new-session", s.replay());
+                cutAndCheck(s, resumable);
+                auto a2 = runAttempt(s, p, -1, false, resumable);
+                if (p.auth != 'l' && a2.reachedDone && !a2.resumedNow && (s.r.w.iqStarted - s.r.w.iqFinished) != 0) fail("C10:request-outlives-new-session", s.replay());
                 stat("c10:runs");
                 if (lastCut) break;
             }
@@ -1062,13 +1093,11 @@ static void exploreC10(Runner &r, Rng &rng, bool thorough)
                 Session s(r, cfgs[rng.below(2)]);
                 bool resumable = false;
                 auto a1 = runAttempt(s, p1, cut, rng.coin(), resumable);
-                cutAndCheck(s, a1.reachedDone ? resumable : false);
-                bool r2 = false;
-                auto a2 = runAttempt(s, p2, -1, false, r2);
+                cutAndCheck(s, resumable);
+                runAttempt(s, p2, -1, false, resumable);
                 if (rng.coin()) {
-                    cutAndCheck(s, a2.reachedDone ? r2 : false);
-                    bool r3 = false;
-                    runAttempt(s, pols[rng.below(uint32_t(pols.size()))], -1, false, r3);
+                    cutAndCheck(s, resumable);
+                    runAttempt(s, pols[rng.below(uint32_t(pols.size()))], -1, false, resumable);
                 }
                 pairs++;
                 stat("c10:runs");
@@ -1083,7 +1112,7 @@ static const std::vector<std::string> &alphabetSmall()
 {
     static const std::vector<std::string> a = {
         "hdr 1 1", "hdr 0 1", "feat t1 mp a1 b1", "feat t0 mp a1", "proceed 1", "proceed 0", "fields 1 1", "iqget version",
-        "iqget unknown", "success", "feat t0 zp200", "bindres ok", "redirect", "message",
+        "iqget unknown", "success 1", "feat t0 zp200", "bindres ok", "redirect", "message",
     };
     return a;
 }
@@ -1093,8 +1122,8 @@ static const std::vector<std::string> &alphabetFull()
         "hdr 1 1", "hdr 0 1", "hdr 1 0", "hdr 0 0",
         "feat t1 mp a1 b1", "feat t2 ms", "feat t0 mp a1", "feat t0 ms", "feat t0 mu", "feat t0 a1", "feat t0 b1 s1 c1", "feat t0 b1", "feat t0 s1", "feat t0", "feat t1",
         "feat t0 zp200", "feat t0 zs011", "feat t0 zp111 mp", "feat t0 zu000", "feat t1 zp200",
-        "proceed 1", "proceed 0", "tlsfailure", "success", "failure", "challenge 1", "challenge 0",
-        "success2 0 0 0", "success2 1 0 0", "success2 2 0 1", "success2 3 0 0", "success2 0 1 0", "success2 0 2 0", "success2 2 1 1", "failure2", "challenge2 1", "challenge2 0", "continue2",
+        "proceed 1", "proceed 0", "tlsfailure", "success 1", "success 0", "failure", "challenge 1", "challenge 0",
+        "success2 0 0 0 1", "success2 1 0 0 1", "success2 2 0 1 1", "success2 3 0 0 0", "success2 0 1 0 1", "success2 0 2 0 1", "success2 2 1 1 0", "failure2", "challenge2 1", "challenge2 0", "continue2",
         "fields 1 1", "fields 1 0", "fields 0 1", "fields 0 0", "authres 1", "authres 0",
         "bindres ok", "bindres nojid", "bindres err", "bindres wrongid", "smenabled 1", "smenabled 0", "smfailed", "smresumed",
         "iqget version", "iqget disco", "iqget unknown", "iqset", "iqresult pending", "iqresult stray", "message", "presence sub", "presence avail",
@@ -1151,7 +1180,7 @@ static void exploreC04(Runner &r, Rng &rng, bool thorough)
     runC04Script(r, cfgs[0], { "hdr 0 1", "fields 1 1" });
     runC04Script(r, cfgs[0], { "hdr 1 1", "iqget version" });
     runC04Script(r, cfgs[0], { "hdr 1 1", "feat t0 mp a1" });
-    runC04Script(r, cfgs[1], { "hdr 1 1", "feat t1 mp a1 b1", "proceed 1", "hdr 1 1", "feat t0 mp a1", "success", "hdr 1 1", "feat t0 b1", "bindres ok" });
+    runC04Script(r, cfgs[1], { "hdr 1 1", "feat t1 mp a1 b1", "proceed 1", "hdr 1 1", "feat t0 mp a1", "success 1", "hdr 1 1", "feat t0 b1", "bindres ok" });
     for (size_t ci = 0; ci < cfgs.size(); ci++) {
         int d = (ci == 0) ? depth : (ci == 1 ? depth : depth - 1);
         std::vector<int> idx;
